@@ -86,7 +86,7 @@ def selection_cases(ctx, T):
         for req, opt in LT.calls(reqc, optc):
             cases.append((fn, req, opt))
     ctx.rng.shuffle(cases)
-    return cases[: ctx.budget(1000, 100000)]
+    return cases[: ctx.budget(4000, 100000)]
 
 
 def coq_chain_file(T, cases):
